@@ -4,7 +4,9 @@
 package vsync
 
 import (
+	"runtime"
 	"sync"
+	"sync/atomic"
 	"unsafe"
 
 	"verif/vsched"
@@ -67,10 +69,81 @@ type Locker = sync.Locker
 // every primitive falls back to a real one embedded in it (a side table keyed by address kept every object
 // that ever used a lock alive: 2.7 KB per history in the C11 enumeration).
 
+// fbMutex / fbRWMutex are the fallback locks used outside controlled executions (sequential harness code).
+// Unlike sync's, an unlock of an unlocked lock is an ordinary (recoverable) panic instead of a fatal error,
+// so that a sequential check can report it as a finding about the code under test.
+type fbMutex struct{ state atomic.Int32 }
+
+func (m *fbMutex) Lock() {
+	for !m.state.CompareAndSwap(0, 1) {
+		runtime.Gosched()
+	}
+}
+
+func (m *fbMutex) TryLock() bool { return m.state.CompareAndSwap(0, 1) }
+
+func (m *fbMutex) Unlock() {
+	if !m.state.CompareAndSwap(1, 0) {
+		panic("sync: unlock of unlocked mutex")
+	}
+}
+
+type fbRWMutex struct {
+	mu      fbMutex
+	readers int
+	writer  bool
+}
+
+func (m *fbRWMutex) RLock() {
+	for {
+		m.mu.Lock()
+		if !m.writer {
+			m.readers++
+			m.mu.Unlock()
+			return
+		}
+		m.mu.Unlock()
+		runtime.Gosched()
+	}
+}
+
+func (m *fbRWMutex) RUnlock() {
+	m.mu.Lock()
+	if m.readers == 0 {
+		m.mu.Unlock()
+		panic("sync: RUnlock of unlocked RWMutex")
+	}
+	m.readers--
+	m.mu.Unlock()
+}
+
+func (m *fbRWMutex) Lock() {
+	for {
+		m.mu.Lock()
+		if !m.writer && m.readers == 0 {
+			m.writer = true
+			m.mu.Unlock()
+			return
+		}
+		m.mu.Unlock()
+		runtime.Gosched()
+	}
+}
+
+func (m *fbRWMutex) Unlock() {
+	m.mu.Lock()
+	if !m.writer {
+		m.mu.Unlock()
+		panic("sync: Unlock of unlocked RWMutex")
+	}
+	m.writer = false
+	m.mu.Unlock()
+}
+
 // Mutex is a scheduler-owned mutual exclusion lock.
 type Mutex struct {
 	b  byte
-	fb sync.Mutex
+	fb fbMutex
 }
 
 func (m *Mutex) Lock() {
@@ -99,7 +172,7 @@ func (m *Mutex) Unlock() {
 // RWMutex is a scheduler-owned reader/writer lock with writer preference.
 type RWMutex struct {
 	r, w byte
-	fb   sync.RWMutex
+	fb   fbRWMutex
 }
 
 func (m *RWMutex) RLock() {
